@@ -392,6 +392,11 @@ func (g *Gen) Next() *Op {
 	case PushBlob:
 		op.Repo = g.writeRepo()
 		op.Data = g.C.Bytes("blob", g.blobLen())
+		if len(g.pastMan) > 0 && g.C.Bool("blob.manifest-bytes", 1, 10) {
+			// the bytes of a manifest pushed earlier, as a blob: one digest, two kinds of
+			// thing (a layer and a subject of one manifest may then carry the same digest)
+			op.Data = g.pastMan[g.C.Int("blob.manifest-bytes.which", len(g.pastMan))].data
+		}
 		op.Digest = Sha256(op.Data)
 		op.DeclSize = int64(len(op.Data))
 		op.MediaType = "application/octet-stream"
